@@ -1,4 +1,97 @@
+/-
+  C03 (b) — every accessor the generator emits for an accepted definition addresses a range with
+  start < end ≤ size ≤ 8 × byte length and width ≤ carrier width, i.e. it satisfies the safety
+  precondition of the bit operations (part (a), `DDV.Props.C03`).
+-/
 import DDV.Gen.Lemmas.Layout
+import DDV.Gen.Lower
+import DDV.Props.C03
+
 namespace DDV.Props.C03Gen
-theorem placeholder : True := trivial
+open DDV.Gen
+set_option linter.unusedVariables false
+set_option linter.unusedSimpArgs false
+
+theorem le_nextPow2 (n : Nat) : n ≤ nextPow2 n := by
+  unfold nextPow2
+  split
+  · omega
+  · have := Nat.lt_log2_self (n := n - 1)
+    omega
+
+/-- The carrier is wide enough for the field: `max(w, 8).next_power_of_two() ≥ w`. -/
+theorem carrier_fits (w : Nat) : w ≤ carrierBitsOf w ∧ 8 ≤ carrierBitsOf w := by
+  unfold carrierBitsOf
+  have := le_nextPow2 (Nat.max w 8)
+  have h1 : w ≤ Nat.max w 8 := Nat.le_max_left _ _
+  have h2 : 8 ≤ Nat.max w 8 := Nat.le_max_right _ _
+  exact ⟨Nat.le_trans h1 this, Nat.le_trans h2 this⟩
+
+/-- What the lowering makes of a field: same range, carrier at least as wide as the field. -/
+theorem transformField_bounds (enums : List Enum) (f : Field) (lf : LField)
+    (h : transformField enums f = .ok lf) :
+    lf.start = f.start ∧ lf.stop = f.stop ∧ f.stop - f.start ≤ lf.carrierBits := by
+  unfold transformField at h
+  simp only [bind, Except.bind, pure, Except.pure, throw, throwThe, MonadExceptOf.throw] at h
+  cases hb : f.base <;> cases hc : f.conv <;> simp only [hb, hc] at h
+  · -- bool, no conversion
+    by_cases hw : f.width = 1
+    · simp only [hw, if_true, Except.ok.injEq] at h
+      rw [← h]
+      unfold Field.width at hw
+      exact ⟨rfl, rfl, by simp only; omega⟩
+    · simp only [hw, if_false] at h; cases h
+  · cases h
+  · simp only [Except.ok.injEq] at h; rw [← h]; exact ⟨rfl, rfl, (carrier_fits _).1⟩
+  · split at h
+    · cases h
+    · simp only [Except.ok.injEq] at h; rw [← h]; exact ⟨rfl, rfl, (carrier_fits _).1⟩
+  · simp only [Except.ok.injEq] at h; rw [← h]; exact ⟨rfl, rfl, (carrier_fits _).1⟩
+  · split at h
+    · cases h
+    · simp only [Except.ok.injEq] at h; rw [← h]; exact ⟨rfl, rfl, (carrier_fits _).1⟩
+
+/-- **C03 (b).** For a register that passed range validation, every field the lowering emits
+    satisfies the safety precondition of the bit operations on the register's own byte array of
+    ⌈size/8⌉ bytes — so, by C03 (a), its getter and setter neither read nor write outside it. -/
+theorem accepted_accessors_safe (enums : List Enum) (r : Register)
+    (hr : isOk (bitRangesObj (.register r))) (f : Field) (hf : f ∈ r.fields) (lf : LField)
+    (hl : transformField enums f = .ok lf) :
+    DDV.Props.C03.Safe ⟨lf.carrierBits, lf.signed⟩ ((r.sizeBits + 7) / 8) lf.start lf.stop := by
+  have hok := (bitRangesObj_spec (.register r)).1 hr
+  unfold RangesObjOk SetOkNorm at hok
+  obtain ⟨h1, h2⟩ := hok.1 f hf
+  obtain ⟨hs, he, hc⟩ := transformField_bounds enums f lf hl
+  refine ⟨by omega, ?_, by rw [hs, he]; exact hc⟩
+  rw [he]; omega
+
+/-- The same for both field sets of a command. -/
+theorem accepted_command_accessors_safe (enums : List Enum) (c : Command)
+    (hr : isOk (bitRangesObj (.command c))) (f : Field) (lf : LField)
+    (hl : transformField enums f = .ok lf) :
+    (f ∈ c.inFields → DDV.Props.C03.Safe ⟨lf.carrierBits, lf.signed⟩ ((c.sizeBitsIn + 7) / 8) lf.start lf.stop) ∧
+    (f ∈ c.outFields → DDV.Props.C03.Safe ⟨lf.carrierBits, lf.signed⟩ ((c.sizeBitsOut + 7) / 8) lf.start lf.stop) := by
+  have hok := (bitRangesObj_spec (.command c)).1 hr
+  unfold RangesObjOk SetOkNorm at hok
+  obtain ⟨hs, he, hc⟩ := transformField_bounds enums f lf hl
+  constructor
+  · intro hf
+    obtain ⟨h1, h2⟩ := hok.1.1 f hf
+    exact ⟨by omega, by rw [he]; omega, by rw [hs, he]; exact hc⟩
+  · intro hf
+    obtain ⟨h1, h2⟩ := hok.2.1 f hf
+    exact ⟨by omega, by rw [he]; omega, by rw [hs, he]; exact hc⟩
+
+/-- Bool fields are exactly one bit in a `u8` carrier. -/
+theorem bool_accessor (enums : List Enum) (f : Field) (lf : LField) (hb : f.base = .bool)
+    (hl : transformField enums f = .ok lf) : lf.stop - lf.start = 1 ∧ lf.carrierBits = 8 ∧ lf.conv = .bool := by
+  unfold transformField at hl
+  simp only [bind, Except.bind, pure, Except.pure, throw, throwThe, MonadExceptOf.throw, hb] at hl
+  cases hc : f.conv <;> simp only [hc] at hl
+  · by_cases hw : f.width = 1
+    · simp only [hw, if_true, Except.ok.injEq] at hl
+      rw [← hl]; unfold Field.width at hw; exact ⟨hw, rfl, rfl⟩
+    · simp only [hw, if_false] at hl; cases hl
+  · cases hl
+
 end DDV.Props.C03Gen
